@@ -3,5 +3,6 @@ CONSTANTS
   Trunk = 258
   NBlocks = 8
   NReq = 24
+  TipW = 2
 INVARIANT Dump
 CHECK_DEADLOCK FALSE
